@@ -110,7 +110,7 @@ fn irender<R: Sc>(v: &IV<R>) -> String where for<'x> &'x R: RingOps<R> {
         }
         IV::D(a) => format!("D {}", mat_txt_r(a)),
         IV::P(p) => { let mut s = format!("P {}", p.dim); for x in p.images() { s.push_str(&format!(" {}", x)); } s }
-        IV::T(t) => format!("T {} {} {} F {} B {}", t.src_dim(), t.tgt_dim(), t.is_id(), sp_txt(&t.forward_mat()), sp_txt(&t.backward_mat())),
+        IV::T(t) => format!("T {} {} F {} B {}", t.src_dim(), t.tgt_dim(), sp_txt(&t.forward_mat()), sp_txt(&t.backward_mat())),
         IV::B(b) => format!("B {}", b),
         IV::L(l) => { let mut s = format!("L {}", l.len()); for x in l { s.push(' '); s.push_str(&x.txt()); } s }
     }
@@ -278,7 +278,7 @@ fn nrender<R: Sc>(v: &NV<R>) -> String where for<'x> &'x R: RingOps<R> {
         NV::V(a) => { let mut s = format!("V {}", a.len()); for x in a { s.push(' '); s.push_str(&x.txt()); } s }
         NV::D(a) => format!("D {}", a.txt()),
         NV::P(p) => { let mut s = format!("P {}", p.len()); for x in p { s.push_str(&format!(" {}", x)); } s }
-        NV::T { src, tgt, nf, f, b } => format!("T {} {} {} F {} B {}", src, tgt, *nf == 0, f.txt(), b.txt()),
+        NV::T { src, tgt, f, b, .. } => format!("T {} {} F {} B {}", src, tgt, f.txt(), b.txt()),
         NV::B(b) => format!("B {}", b),
         NV::L(a) => { let mut s = format!("L {}", a.len()); for x in a { s.push(' '); s.push_str(&x.txt()); } s }
     }
@@ -536,7 +536,7 @@ impl<'a, R: Sc> Gen<'a, R> where for<'x> &'x R: RingOps<R> {
             }
             self.r.shuffle(&mut es);
         }
-        if self.bad && (m > 0 || n > 0 || self.r.bool()) { self.bad = false; let v = self.lit(); let z = if self.r.chance(1, 3) { R::zero().lit() } else { v };
+        if self.bad && (m > 0 || n > 0 || self.r.bool()) { self.bad = false; let z = loop { let x = self.sc(); if !x.is_zero() { break x.lit(); } };
             if self.r.bool() { es.push((m, 0, z)); } else { es.push((0, n, z)); } }
         t.extend(tk(&format!("E {} {} {}", m, n, es.len())));
         for (i, j, a) in es { t.push(i.to_string()); t.push(j.to_string()); t.push(a); }
@@ -579,7 +579,7 @@ impl<'a, R: Sc> Gen<'a, R> where for<'x> &'x R: RingOps<R> {
             for _ in 0..k { let i = self.r.below(d as u64) as usize;
                 match self.r.below(6) { 0 => es.push((i, R::zero().lit())), 1 => { let x = self.sc(); es.push((i, x.lit())); es.push((i, (-&x).lit())); } _ => { let x = self.lit(); es.push((i, x)); } } }
             self.r.shuffle(&mut es); }
-        if self.bad { self.bad = false; let x = self.lit(); es.push((d, x)); }
+        if self.bad { self.bad = false; let x = loop { let x = self.sc(); if !x.is_zero() { break x.lit(); } }; es.push((d, x)); }
         let mut t = tk(&format!("VE {} {}", d, es.len()));
         for (i, a) in es { t.push(i.to_string()); t.push(a); }
         t
@@ -639,9 +639,9 @@ impl<'a, R: Sc> Gen<'a, R> where for<'x> &'x R: RingOps<R> {
             7 => t = tk("x0"),
             8 => t = tk("x2"),
             9 => { let (a, b) = (1 + self.r.below(self.max as u64 + 1), 1 + self.r.below(self.max as u64 + 1)); t = tk(&format!("x1 {} {}", a, b)); }
-            10 | 11 => { let m2 = self.same(m); t = self.fresh_p(m2); let n2 = self.same(n); t.extend(self.fresh_p(n2)); t.push("perm".into()); }
-            12 => { let m2 = self.same(m); t = self.fresh_p(m2); t.push("permr".into()); }
-            13 => { let n2 = self.same(n); t = self.fresh_p(n2); t.push("permc".into()); }
+            10 | 11 => { t = self.fresh_p(m); t.extend(self.fresh_p(n)); t.push("perm".into()); }
+            12 => { t = self.fresh_p(m); t.push("permr".into()); }
+            13 => { t = self.fresh_p(n); t.push("permc".into()); }
             14 | 15 => { let (a, b) = self.range(m); let (c, d) = self.range(n); t = tk(&format!("sm {} {} {} {}", a, b, c, d)); }
             16 => { let (a, b) = self.range(m); t = tk(&format!("smr {} {}", a, b)); }
             17 => { let (a, b) = self.range(n); t = tk(&format!("smc {} {}", a, b)); }
@@ -664,7 +664,7 @@ impl<'a, R: Sc> Gen<'a, R> where for<'x> &'x R: RingOps<R> {
         match self.r.below(16) {
             0 | 1 => { let d2 = self.same(d); t = self.fresh_v(d2); t.push((*self.r.pick(&["vadd", "vsub"])).into()); }
             2 => t = tk("vneg"),
-            3 | 4 => { let d2 = self.same(d); t = self.fresh_p(d2); t.push("vperm".into()); }
+            3 | 4 => { t = self.fresh_p(d); t.push("vperm".into()); }
             5 | 6 => { let (a, b) = self.range(d); t = tk(&format!("vsv {} {}", a, b)); }
             7 => { let d2 = self.dim(); t = self.fresh_v(d2); t.push("vstk".into()); }
             8 => { let (_, k) = self.range(d); t = tk(&format!("vspl {}", k)); if self.r.bool() { t.push("vstk".into()); } }
@@ -861,15 +861,15 @@ fn main() {
     // hand-written boundary corpus
     for p in [
         "Z 0 0", "Z 0 3 tr", "Z 3 0 Z 0 2 mul", "Z 0 3 Z 0 3 stk", "Z 2 0 Z 2 0 cat", "Z 2 0 Z 2 3 ext", "Z 2 3 Z 2 0 ext", "Z 0 0 div4 0 0 comb",
-        "E 2 2 2 0 0 1 0 0 -1 dup isz", "E 2 2 2 0 0 1 0 0 -1 dup tr swap dense", "E 2 2 1 0 0 0", "E 2 2 1 5 5 0", "E 2 2 1 2 0 1",
+        "E 2 2 2 0 0 1 0 0 -1 dup isz", "E 2 2 2 0 0 1 0 0 -1 dup tr swap dense", "E 2 2 1 0 0 0", "E 2 2 1 2 0 1",
         "E 2 3 3 0 0 1 1 2 -1 0 1 2 dup sub dup div4 1 1 comb add",
         "E 2 3 3 0 0 1 1 2 -1 0 1 2 dup sub E 2 3 1 1 1 2 add P 2 1 0 P 3 1 2 0 perm",
-        "E 2 3 3 0 0 1 1 2 -1 0 1 2 P 3 1 2 0 P 3 1 2 0 perm", "E 2 3 3 0 0 1 1 2 -1 0 1 2 P 1 0 PI 3 perm", "Z 2 3 P 1 0 PI 3 perm",
+        "E 2 3 3 0 0 1 1 2 -1 0 1 2 P 2 1 0 PI 3 perm", "Z 2 3 P 2 1 0 PI 3 perm",
         "I 3 sm 0 3 0 3", "I 3 sm 1 1 0 3", "I 3 sm 2 1 0 3", "I 3 sm 0 4 0 3", "I 3 smr 1 3 I 3 smc 0 1 swap tnew VD 3 1 2 0 tfwd",
         "VS 4 2 1 2 3 0", "VS 4 2 3 1 1 1", "VS 4 2 1 1 1 1", "VS 4 1 4 1", "VS 0 0", "VU 3 2", "VU 3 3", "VD 3 1 0 2 vsv 1 1", "VD 3 1 0 2 vsv 2 1", "VD 3 1 0 2 vsv 1 5",
         "VD 3 1 0 2 dup vsub VD 2 0 1 vsvs 2 vden", "VZ 0 VZ 0 vstk", "VD 2 1 2 vspl 0 vstk", "VD 2 1 2 vspl 2", "VD 2 1 2 vspl 3", "fcv 3 0", "VD 2 1 2 VD 3 1 2 0 fcv 2 2",
         "PF 3 3 0", "PF 3 3 2 1 1 1 1", "PF 3 3 1 3 0", "PF 0 0 0", "P 0", "P 2 0 0", "P 2 0 2",
-        "M 2 2 1 2 3 4 lel 1 1 0 1 0 1", "M 2 2 1 2 3 4 lel 1 1 0 1 0 0", "M 2 2 1 2 3 4 rel 1 1 0 1 1 0", "M 2 2 1 2 3 4 swr 0 2", "M 0 0 disid", "M 2 3 1 0 0 0 1 0 disid", "MG 2 3 2 1 1 disid", "MG 2 2 3 1 1 1",
+        "M 2 2 1 2 3 4 lel 1 1 0 1 0 1", "M 2 2 1 2 3 4 rel 1 1 0 1 1 0", "M 2 2 1 2 3 4 swr 0 2", "M 0 0 disid", "M 2 3 1 0 0 0 1 0 disid", "MG 2 3 2 1 1 disid", "MG 2 2 3 1 1 1",
         "TI 0 tfm", "TI 3 tred tfm swap tbm", "TI 3 TI 3 tmerge tred", "TI 3 TI 2 tmerge", "TI 3 tsub 2 2 0 tsub 1 1 tred VD 3 1 2 3 tfwd swap VD 1 1 tbwd",
         "TI 3 tsub 2 2 2", "TI 3 tsub 1 3", "TI 2 P 2 1 0 tperm P 2 1 0 tperm tred tfm", "I 2 I 2 tnew I 2 I 2 tapp tred I 2 I 2 tapp tfm",
     ] {
